@@ -239,6 +239,10 @@ static VSock *live_sock(World *w, int fd, const char *call)
 static bool take_fault(World *w, int site)
 {
   if (w->fault[site]) {
+    if (w->fault_skip[site] > 0) {
+      w->fault_skip[site]--;
+      return false;
+    }
     w->fault[site]--;
     w->W("fault_fired");
     return true;
@@ -1713,7 +1717,10 @@ void World::apply(const Ev &e)
       break;
     }
     case EV_FAULT:
-      if (e.a >= 0 && e.a < FS_NSITES) fault[e.a]++;
+      if (e.a >= 0 && e.a < FS_NSITES) {
+        fault[e.a]++;
+        fault_skip[e.a] = e.b; // the fault hits the (b+1)-th call of that site from now
+      }
       deviations++;
       break;
     case EV_SRCADDR: src_variant = e.a; break;
